@@ -151,6 +151,16 @@ def main(tier):
         for d in (1, 5, 19, 20):
             s, v = nested(d)
             progs.append((s, v, "", None))
+        # the string form of a hole's value does not depend on the other holes: the same container shown twice, a container and its
+        # own member, a hole that builds the container a later hole shows, shared sub-containers
+        for q in "`\x1e":
+            progs += [(f"xs=[1,2]; {q}{{xs}}|{{xs}}{q}", "[1, 2]|[1, 2]", "", None), (f"mp={{'k':1}}; {q}{{mp}} and {{mp}}{q}", "{'k': 1} and {'k': 1}", "", None),
+                      (f"xs=[1,[2]]; {q}{{xs}}{{xs[1]}}{{xs}}{q}", "[1, [2]][2][1, [2]]", "", None), (f"{q}{{% xs=[3] %}}{{xs}}{{xs}}{q}", "[3][3][3]", "", None),
+                      # (a sub-container that occurs twice INSIDE one value is printed as [...] the second time by ToString itself,
+                      #  template or not: that is the string form of that value, not the template's doing)
+                      (f"ys=[5]; xs=[ys,7]; {q}{{xs}}{{ys}}{{xs}}{q}", "[[5], 7][5][[5], 7]", "", None),
+                      (f"xs=[1]; {q}a{{xs}}{q} + {q}b{{xs}}{q}", "a[1]b[1]", "", None), (f"xs=[1]; {q}{{ {q}{{xs}}{q} }}{{xs}}{q}", "[1][1]", "", None),
+                      (f"xs=[]; {q}{{xs}}{{xs}}{{ {{}} }}{{ {{}} }}{q}", "[][]{}{}", "", None)]
         lines = [f"runseq L100000 - {hx(src)}" + (f" {hx(check[2:])}" if check else "") for src, val, check, we in progs]
         out = run.go_only("templates", lines, go_timeout=300)
         for (src, val, check, we), (ln, g) in zip(progs, out):
